@@ -356,6 +356,7 @@ func runC15(c *core.Ctx) {
 	classes := []cc{
 		{"zh", "required|必填%d", true}, {"en", "required", true}, {"cu", "required|need_%d", true},
 		{"unk", "nosuchrule%d", false}, {"wr", "to=abc", false},
+		{"ns", "email", true}, // a string-only rule on an integer field: "it must is string", a clause like any other
 	}
 	rng := c.Rng("extractor")
 	runPattern := func(pat []int, groups int) {
@@ -382,7 +383,12 @@ func runC15(c *core.Ctx) {
 				rule = "le=2" + strings.TrimPrefix(rule, "required")
 				echoVals[i] = []string{"İstanbul", "K-273", "Ω ẞ Ⱥ", "İİİ K"}[rng.Intn(4)]
 			}
-			fields = append(fields, reflect.StructField{Name: fmt.Sprintf("F%d", i), Type: reflect.TypeOf(""), Tag: reflect.StructTag(`valid:"` + rule + `"`)})
+			ft := reflect.TypeOf("")
+			if classes[p].name == "ns" {
+				ft = reflect.TypeOf(int(0))
+				rule = []string{"email", "phone", "date", "ip", "prefix=a"}[rng.Intn(5)]
+			}
+			fields = append(fields, reflect.StructField{Name: fmt.Sprintf("F%d", i), Type: ft, Tag: reflect.StructTag(`valid:"` + rule + `"`)})
 		}
 		for g := 0; g < groups; g++ {
 			for m := 0; m < 2; m++ {
@@ -394,6 +400,9 @@ func runC15(c *core.Ctx) {
 		for i, p := range pat {
 			if classes[p].name == "wr" { // the rule function only runs on a non-empty value
 				obj.Elem().Field(i).SetString("v")
+			}
+			if classes[p].name == "ns" {
+				obj.Elem().Field(i).SetInt(7)
 			}
 			if ev, ok := echoVals[i]; ok {
 				obj.Elem().Field(i).SetString(ev)
@@ -465,7 +474,7 @@ func runC15(c *core.Ctx) {
 			res.Sample("extractor", 1, wit)
 		}
 	}
-	// every pattern of length 1..4 (5^1+..+5^4 = 780), with 0 and 1 trailing group clauses
+	// every pattern of length 1..4 (6^1+..+6^4 = 1554), with 0 and 1 trailing group clauses
 	n := 0
 	for k := 1; k <= 4; k++ {
 		tot := 1
@@ -505,4 +514,4 @@ func runC15(c *core.Ctx) {
 	_ = rand.Int
 }
 
-func classes2labelled(n string) bool { return n == "zh" || n == "en" || n == "cu" || n == "group" }
+func classes2labelled(n string) bool { return n == "zh" || n == "en" || n == "cu" || n == "ns" || n == "group" }
